@@ -167,7 +167,7 @@ static void run_zoo(Rng &r)
             for(auto &n : c.leaf.order) {
                 if(!self_on && n != "on") continue;     // a disabled object still presents its enabling toggle
                 if(n == "arr" || n == "farr") for(int i = 0; i < 8; ++i) e.insert(pre + n + std::to_string(i));
-                else e.insert(pre + n);
+                else e.insert(pre + c.leaf.pname(n));
             }
             if(c.enable_placement == 2 && self_on) e.insert(pre + "self");
         };
